@@ -339,7 +339,8 @@ def execute(conc, origin, v0, ops, flavour=0, states=None, epilogue=True):
             fails.append((i, cl, (value[:80].hex() if isinstance(value, bytes) else repr(value)[:200])))
         pr = ob.project()
         if kind_of == "copy":
-            kind_of, value = "bytes", value[0]
+            # a copy stands for the valuation of its bytes only if its name is the hash of these bytes
+            kind_of, value = "bytes", (value[0] if cl != "copy-id-not-hash-of-content" else b"<copy with wrong name>")
         if kind_of == "bytes":
             ret = conc.by_bytes.get(value, "other")
         elif kind_of == "sha1":
@@ -466,8 +467,13 @@ def run_job(job):
                     continue
                 ops.append(rng.choice([("AsRaw", ()), ("ReadId", ()), ("ReadId", ()), ("ReadId256", ()), ("Copy", ()),
                                        ("Check", ()), ("Reload", (True,)), ("Reload", (False,))]))
-            fails, _, events = execute(conc, origin, v0, ops, rng.randrange(1000))
-            out["traces"].append({"conc": conc.name, "kind": conc.kind, "origin": origin, "v0": list(v0),
-                                  "ev": events, "fails": [(i, c) for (i, c, _) in fails],
+            flav = rng.randrange(1000)
+            fails, _, events = execute(conc, origin, v0, ops, flav)
+            scen = None
+            if fails:
+                mops = minimise(conc, origin, v0, ops, fails[0][1], flav)
+                scen = f"{origin}({''.join(str(x) for x in v0)});" + ";".join(op_str(o, a) for (o, a) in mops)
+            out["traces"].append({"conc": conc.name, "kind": conc.kind, "algo": conc.algo, "origin": origin, "v0": list(v0),
+                                  "ev": events, "fails": [(i, c) for (i, c, _) in fails], "scenario": scen, "flavour": flav,
                                   "ops": [[o, list(a) if not (a and isinstance(a[0], tuple)) else [list(a[0])] + list(a[1:])] for (o, a) in ops]})
     return out
